@@ -390,23 +390,18 @@ func c01r4(c *Ctx, id string) {
 				continue
 			}
 			ev := h.Params[1]
-			allocs := allocsOf(h, off)
-			if len(allocs) == 0 {
+			lits := w.litsIn(h, off)
+			if len(lits) == 0 {
 				continue // handler builds no offset (SnapshotMarker, OSOSnapshot, End)
 			}
-			for _, a := range allocs {
-				tab, ok := allocTable(a)
+			for _, l := range lits {
 				construct := "offset@" + fname(h)
-				if !ok {
-					c.Undecided(id, construct, a.Pos(), "offset literal has a field stored twice")
-					continue
-				}
-				got := w.Origin(tab["SeqNo"])
+				got := l.Table["SeqNo"]
 				want := "param(" + ev.Name() + ").SeqNo"
 				if got == want {
-					c.OK(id, construct, a.Pos(), "Offset.SeqNo ← %s", got)
+					c.OK(id, construct, l.Pos, "Offset.SeqNo ← %s", got)
 				} else {
-					c.Fail(id, construct, a.Pos(), "Offset.SeqNo ← %s, expected the handler's own event position %s", got, want)
+					c.Fail(id, construct, l.Pos, "Offset.SeqNo ← %s, expected the handler's own event position %s", got, want)
 				}
 			}
 		}
@@ -492,16 +487,12 @@ func findSaveDump(c *Ctx, id string, fn *ssa.Function) *saveDump {
 		c.Fail(id, "dump@"+fname(fn), sd.update.Pos(), "the dump is not populated by a Range callback over a position map")
 		return nil
 	}
-	a := asAlloc(sd.update.Value)
-	if a == nil {
-		c.Fail(id, "dump@"+fname(fn), sd.update.Pos(), "dumped value is not a document literal: %s", w.Origin(sd.update.Value))
+	lit, ok := w.litOf(sd.update.Value)
+	if !ok {
+		c.Fail(id, "dump@"+fname(fn), sd.update.Pos(), "dumped value is not a document literal (built in place or by a one-level helper): %s", w.Origin(sd.update.Value))
 		return nil
 	}
-	sd.table = map[string]string{}
-	if !flattenAlloc(w, a, "", sd.table, 0) {
-		c.Undecided(id, "dump@"+fname(fn), sd.update.Pos(), "document literal has a field stored twice")
-		return nil
-	}
+	sd.table = lit.Table
 	return sd
 }
 
